@@ -269,6 +269,13 @@ def canon(e, env):
             return '!VALID(%s)' % canon(e['ch'][0], env)
         if e['method'] == 'is_not_nat' and len(e['ch']) == 1:
             return 'VALID(%s)' % canon(e['ch'][0], env)
+        # `(a..b).contains(&x)` is `a <= x && x < b`; `(a..=b).contains(&x)` is `a <= x && x <= b`
+        r0_ = peel(e['ch'][0])
+        if e['method'] == 'contains' and len(e['ch']) == 2 and r0_.get('k') == 'Range' and \
+                peel(r0_['ch'][0]).get('k') != 'Lit':
+            lo_, hi_, x_ = canon(r0_['ch'][0], env), canon(r0_['ch'][1], env), canon(e['ch'][1], env)
+            parts_ = sorted({'(%s <= %s)' % (lo_, x_), '(%s %s %s)' % (x_, '<=' if r0_.get('incl') else '<', hi_)})
+            return '(%s)' % ' && '.join(parts_)
         args_ = [canon(x, env) for x in e['ch'][1:]]
         if e['method'] in ('min', 'max') and len(args_) == 1 and callee_is(e, 'Ord::min', 'Ord::max'):
             # `a.min(b)`, `b.min(a)`, `std::cmp::min(a, b)`: one spelling
